@@ -453,7 +453,7 @@ func TestRuntimeOrderRapid(t *testing.T) {
 		var plan []act
 		nSteps := rapid.IntRange(1, 6*n).Draw(rt, "steps")
 		for i := 0; i < nSteps; i++ {
-			plan = append(plan, act{Kind: rapid.SampledFrom([]string{"release", "release", "release", "release", "runfail", "stop", "tick"}).Draw(rt, "kind"),
+			plan = append(plan, act{Kind: rapid.SampledFrom([]string{"release", "release", "release", "release", "runfail", "stop", "tick", "longtick"}).Draw(rt, "kind"),
 				Svc: rapid.IntRange(0, n-1).Draw(rt, "svc"), Err: rapid.IntRange(0, 5).Draw(rt, "err") == 0})
 		}
 		var failure string
@@ -613,6 +613,9 @@ func TestRuntimeOrderRapid(t *testing.T) {
 					}
 				case "tick":
 					time.Sleep(time.Second)
+				case "longtick":
+					// start and stop latencies are arbitrary: nothing may give up waiting after some minutes or hours
+					time.Sleep(time.Duration(7+a.Svc*40) * time.Minute)
 				}
 				vx.Wait()
 				h.mu.Lock()
